@@ -101,6 +101,7 @@ fn main() {
                     crash: geti(&m, "crash", 0) == 1,
                     crash_every: geti(&m, "every", 1),
                     max_steps: geti(&m, "maxsteps", 3000),
+                    epilogue: geti(&m, "epilogue", 0) == 1,
                 };
                 let mut ex = conc::Explore::new(&scn, &mut out);
                 ex.keep_bases = geti(&m, "bases", 0);
@@ -125,7 +126,7 @@ fn main() {
                 let mut nsolo = 0;
                 if geti(&m, "solo", 0) == 1 {
                     // base schedules: the non-preemptive one per starting thread
-                    let plain = conc::ExecOpts { probe: false, keep_ops: false, crash: false, crash_every: 1, max_steps: 3000 };
+                    let plain = conc::ExecOpts { probe: false, keep_ops: false, crash: false, crash_every: 1, max_steps: 3000, epilogue: false };
                     for t0 in 0..scn.threads.len() {
                         let r = conc::execute(&scn, &mut conc::Strategy::Prefix(vec![t0]), &plain, None);
                         nsolo += ex.solo_points(&r.steps, geti(&m, "budget", 20000), geti(&m, "stride", 1));
@@ -202,7 +203,7 @@ fn main() {
             let mut writes = 0;
             for i in 0..runs {
                 let scn = conc::random_scenario(&mut rng, i);
-                let opts = conc::ExecOpts { probe: false, keep_ops: false, crash: true, crash_every: geti(&m, "every", 1), max_steps: 100000 };
+                let opts = conc::ExecOpts { probe: false, keep_ops: false, crash: true, crash_every: geti(&m, "every", 1), max_steps: 100000, epilogue: false };
                 let mut ex = conc::Explore::new(&scn, &mut out);
                 ex.run(&mut conc::Strategy::Prefix(vec![]), &opts, vec![]);
                 writes += hook::rec_writes();
